@@ -6,17 +6,17 @@ EXPLANATION = ('Producer/consumer threads on the real queue with solver-chosen c
 ASSUMPTIONS = ['reclaimer = lock_free_ref_count (quick); michael_scott_queue only in the quick tier: ramalhete_queue and nikolaev_queue scenarios '
                'produce formulas of millions of terms (2 push || 2 pop with entries_per_node<2>) and are attempted in the thorough tier with 1 push || 1 pop only',
                '2 threads, K=2-3 rounds, <= 2 operations per thread; SC only']
-TIMEOUT = {'quick': 400, 'thorough': 3000}
+TIMEOUT = {'quick': 900, 'thorough': 3000}
 MT = 'Q/queue_mt.cpp'
 
 
 def scenarios(tier):
     s = [Scenario('ms-lfrc-1push-1pop-K2', MT, ['QSEL=4', 'RECL=10', 'NPUSH1=1', 'NPOP2=1'], threads=2, K=2, unwind=3, cover=[1, 2]),
          Scenario('ms-lfrc-2push-1pop-K2', MT, ['QSEL=4', 'RECL=10', 'NPUSH1=2', 'NPOP2=1'], threads=2, K=2, unwind=3, cover=[1, 2]),
-         Scenario('ms-lfrc-prefill1-1push-2pop-K2', MT, ['QSEL=4', 'RECL=10', 'PREFILL=1', 'NPUSH1=1', 'NPOP2=2'], threads=2, K=2, unwind=3, cover=[1, 2]),
-         Scenario('ms-lfrc-1push-1pop-K3', MT, ['QSEL=4', 'RECL=10', 'NPUSH1=1', 'NPOP2=1'], threads=2, K=3, unwind=3, cover=[1, 2])]
+         Scenario('ms-lfrc-prefill1-1push-2pop-K2', MT, ['QSEL=4', 'RECL=10', 'PREFILL=1', 'NPUSH1=1', 'NPOP2=2'], threads=2, K=2, unwind=3, cover=[1, 2])]
     if tier == 'thorough':
-        s += [Scenario('ms-lfrc-2push-2pop-K3', MT, ['QSEL=4', 'RECL=10', 'NPUSH1=2', 'NPOP2=2'], threads=2, K=3, unwind=3, cover=[1, 2]),
+        s += [Scenario('ms-lfrc-1push-1pop-K3', MT, ['QSEL=4', 'RECL=10', 'NPUSH1=1', 'NPOP2=1'], threads=2, K=3, unwind=3, cover=[1, 2]),
+              Scenario('ms-lfrc-2push-2pop-K3', MT, ['QSEL=4', 'RECL=10', 'NPUSH1=2', 'NPOP2=2'], threads=2, K=3, unwind=3, cover=[1, 2]),
               Scenario('ms-lfrc-producers-K2', MT, ['QSEL=4', 'RECL=10', 'NPUSH1=1', 'NPUSH2=1', 'NPOP2=1'], threads=2, K=2, unwind=3, cover=[1, 2]),
               Scenario('ramalhete-lfrc-1push-1pop-K2', MT, ['QSEL=5', 'RECL=10', 'NPUSH1=1', 'NPOP2=1'], threads=2, K=2, unwind=3, cover=[1, 2]),
               Scenario('nikolaev-lfrc-1push-1pop-K2', MT, ['QSEL=6', 'RECL=10', 'NPUSH1=1', 'NPOP2=1'], threads=2, K=2, unwind=3, cover=[1, 2]),
